@@ -87,7 +87,13 @@ def mutants(props, tier="quick"):
         if props and not any(name.startswith(p) for p in props):
             continue
         total += 1
-        base = scratch_tree(patch)
+        try:
+            base = scratch_tree(patch)
+        except RuntimeError as e:
+            # the tree moved on under the patch (a later fix touched the same lines): regenerate it
+            print(f"[selftest] mutant {name}: STALE - {str(e)[:200]}", flush=True)
+            missed.append(name)
+            continue
         try:
             with tempfile.TemporaryDirectory() as td:
                 rc, out = _run(prop, tier, {"VERIF_REPO": base, "VERIF_EVIDENCE_DIR": td, "VERIF_REPLAY_DIR": td})
@@ -115,7 +121,11 @@ def seeded(names, tier="quick"):
         if not os.path.exists(os.path.join(VERIF, "icalsim", "props", prop.lower() + ".py")):
             rows.append((name, prop, "not claimed (N/A)"))
             continue
-        base = scratch_tree(os.path.join(d, "patch.diff"))
+        try:
+            base = scratch_tree(os.path.join(d, "patch.diff"))
+        except RuntimeError as e:
+            print(f"[selftest] seeded {name} ({prop}): STALE - {str(e)[:200]}", flush=True)
+            continue
         try:
             with tempfile.TemporaryDirectory() as td:
                 rc, out = _run(prop, tier, {"VERIF_REPO": base, "VERIF_EVIDENCE_DIR": td, "VERIF_REPLAY_DIR": td})
